@@ -14,7 +14,7 @@
    writes (see `consistent`, which is exactly the hypothesis that present files are complete files). *)
 From Coq Require Import Permutation.
 From E3FP Require Import Base.Prelude Model.Fprint Model.Pipeline Model.Batch Gen.PipelineFacts.
-From E3FP Require Import Proofs.PipelineFs Proofs.Batch Proofs.BatchRun.
+From E3FP Require Import Proofs.PipelineFs Proofs.Batch Proofs.BatchRun Proofs.BatchTie.
 Open Scope Z_scope.
 
 Theorem source_facts :
@@ -67,6 +67,31 @@ Theorem jobs_disjoint :
     level_ok cfg -> NoDup (saved_names order) -> disjoint content (map (worker_job content pickle cfg) order).
 Proof. exact jobs_disjoint. Qed.
 Print Assumptions jobs_disjoint.
+
+(* tie to model M6: the worker is fprints_dict_from_mol (Model/Pipeline.v) with the conformer loop abstracted into the
+   input, and the dict that loop produces has no key or exactly the keys of the level range (input_ok) *)
+Theorem worker_is_entry_point :
+  forall (conformer opts : Type) (fprint : opts -> Z -> conformer -> Z -> Z -> result fp)
+         (fp_init : opts -> Z -> Z -> result unit) (content : Type) (pickle : list fp -> content)
+         (fs : fsmap content) (m : mol conformer) (a : fargs opts),
+    fp_init (a_opts a) (normal_bits (a_bits a)) (normal_level (a_level a)) = Ok tt ->
+    (a_save a = true -> a_out_dir_base a <> None) ->
+    let out := fprints_dict_from_mol conformer opts fprint fp_init content pickle fs m a in
+    let r := mol_step content pickle (cfg_of opts a) fs (effective_name conformer m) (loop_of conformer opts fprint m a) in
+    o_fs out = snd r /\
+    match fst r with
+    | WDict d => o_val out = Ok d
+    | WFalse => exists e, o_val out = Raises e
+    end.
+Proof. exact worker_is_dict_from_mol. Qed.
+Print Assumptions worker_is_entry_point.
+
+Theorem entry_point_input_ok :
+  forall (conformer opts : Type) (fprint : opts -> Z -> conformer -> Z -> Z -> result fp)
+         (content : Type) (pickle : list fp -> content) (m : mol conformer) (a : fargs opts),
+    input_ok (cfg_of opts a) (Loads (effective_name conformer m) (loop_of conformer opts fprint m a)).
+Proof. exact loop_of_input_ok. Qed.
+Print Assumptions entry_point_input_ok.
 
 (* generate_conformers(save=True): the same rule with one output file *)
 Theorem cg_refines_job :
@@ -259,6 +284,19 @@ Theorem resumed_db_incomplete :
   option_map db_rows (fst fresh) = Some [x; y] /\ option_map db_rows (fst resumed) = Some [y].
 Proof. exact resumed_db_incomplete. Qed.
 Print Assumptions resumed_db_incomplete.
+
+(* the partial statement that excludes exactly that trigger: when no molecule is skipped because all its files exist (a
+   fresh output directory, or overwrite) and every loadable input has a name (an unnamed one cannot be saved and is
+   dropped), a run with database AND output directory saves the same database as the database-only run - hence all of
+   db_schedule_independent / input_order_independent / failure_isolated carry over *)
+Theorem db_with_files_partial :
+  forall (content : Type) (pickle : list fp -> content) (cfg : config) (fs : fsmap content) (order : list input),
+    level_ok cfg -> NoDup (saved_names order) -> c_base cfg <> None ->
+    (forall i, In i order -> named_input i) ->
+    (forall i, In i order -> not_resumed content pickle cfg fs i) ->
+    fst (run content pickle cfg fs order true) = fst (run content pickle (nosave cfg) fs order true).
+Proof. exact db_with_files_partial. Qed.
+Print Assumptions db_with_files_partial.
 
 (* ---- non-vacuity ----------------------------------------------------------------------------------------------------- *)
 Example hypotheses_satisfiable :
